@@ -102,7 +102,7 @@ def main(ctx):
     cfgp = os.path.join(wd, "re.cfg")
     maxlen = 3 if ctx.quick else 4
     tlc.write_cfg(cfgp, ["INIT RInit", "NEXT RNext", "CONSTRAINT REmit", "CHECK_DEADLOCK FALSE", "CONSTANTS", " Sigma = {1,2,3,4,5}",
-                         " MaxLen = %d" % maxlen, " Size3 = %s" % ("FALSE" if ctx.quick else "TRUE")])
+                         " MaxLen = %d" % maxlen, " Size3 = TRUE"])
     res = tlc.run("MC_Regex", cfgp, spec_dir=wd, timeout=3000)
     ev.tlc("oracle", res)
     strs = [j["strs"] for j in res.json if j.get("k") == "strs"]
